@@ -78,9 +78,11 @@ class SymDist:
         return ('app', self.name, tuple(canon_val(p) for p in params), (('batch_size', BS), ('random_state', RS)))
 
 
-def build(rng, counter):
+def build(rng, counter, wide=False):
     m = elfi.ElfiModel(name='g')
     n = rng.randint(2, 9)
+    if wide:
+        n = rng.randint(13, 16)          # room for a node with more than ten positional parents
     letters = 'ABCabcXYZxyz'
     names = []
     while len(names) < n:
@@ -98,6 +100,8 @@ def build(rng, counter):
             rng.choice(['Constant', 'Operation', 'Prior', 'Simulator'])
         rng.shuffle(lower)
         parents = [m[p] for p in lower[:rng.randint(0 if kind in ('Operation', 'Prior', 'Simulator', 'Constant') else 1, 3)]]
+        if wide and len(lower) >= 11 and kind in ('Operation', 'Simulator', 'Summary', 'Discrepancy') and rng.random() < .7:
+            parents = [m[p] for p in lower[:rng.randint(11, len(lower))]]          # fan-in 11+: positional index has two digits
         if kind in ('Summary', 'Discrepancy') and not parents:
             parents = [m[lower[0]]]
         obs = ('obs', nm) if rng.random() < .5 else None
@@ -117,6 +121,23 @@ def build(rng, counter):
         if kind not in ('Constant', 'Prior') and rng.random() < .2:     # Prior operations do not accept `meta`
             m[nm].uses_meta = True
         created.append(nm)
+    if wide and not any(len(m.get_parents(nm)) >= 11 for nm in names):
+        # one more node on top of everything, with 11+ positional parents in a random order
+        top = 'Zw9' if 'Zw9' not in names else 'Zw8'
+        pars = list(created)
+        rng.shuffle(pars)
+        pars = [m[p] for p in pars[:rng.randint(11, len(pars))]]
+        kind = rng.choice(['Operation', 'Simulator', 'Discrepancy'])
+        if kind == 'Operation':
+            elfi.Operation(SymOp(top, counter), *pars, model=m, name=top)
+        elif kind == 'Simulator':
+            elfi.Simulator(SymOp(top, counter), *pars, model=m, name=top)
+        else:
+            elfi.Discrepancy(SymOp(top, counter), *pars, model=m, name=top)
+        names.append(top)
+        level[top] = 2.0
+        kinds[top] = kind
+        created.append(top)
     # named edges, possibly from parents created LATER than the child
     for nm in names:
         if kinds[nm] in ('Constant', 'Prior', 'Discrepancy'):
@@ -180,7 +201,10 @@ def term_of(v, rk, kwrk, names_all):
 
 def one(ctx, rng):
     counter = Counter()
-    m, names = build(rng, counter)
+    wide = getattr(ctx, '_c03_n', 0) < 3 or rng.random() < .04
+    ctx._c03_n = getattr(ctx, '_c03_n', 0) + 1
+    m, names = build(rng, counter, wide=wide)
+    ctx.count('graph.max_fan_in', min(max([len(m.get_parents(nm)) for nm in names] + [0]), 12))
     twin_names = [observed_name(nm) for nm in m.nodes]
     all_names = sorted(set(list(m.nodes) + twin_names + ['_batch_size', '_meta', '_random_state']))
     rk = {nm: i for i, nm in enumerate(all_names)}
@@ -193,8 +217,12 @@ def one(ctx, rng):
     pool = list(m.nodes) + twins_avail
     k = rng.randint(1, min(4, len(pool)))
     outputs = rng.sample(pool, k)
+    if wide:                                  # the node with the largest fan-in is requested (and not supplied)
+        widest = max(names, key=lambda nm: len(m.get_parents(nm)))
+        if widest not in outputs:
+            outputs.append(widest)
     wv = {}
-    if rng.random() < .5:
+    if rng.random() < .5 and not wide:
         for nm in rng.sample(list(m.nodes), rng.randint(1, min(2, len(m.nodes)))):
             wv[nm] = ('given', nm)
     case = dict(source=src, names={nm: rk[nm] for nm in m.nodes}, outputs=outputs, with_values=sorted(wv))
